@@ -320,3 +320,8 @@ def every_event_and_state_name_is_its_own_member():
         for j in range(i + 1, len(snames)):
             ensures("state-names-are-distinct-members:" + snames[i], getattr(S, snames[i]) is not getattr(S, snames[j]))
     ensures("the-ten-states-of-the-table-are-all-there-are", len(list(S)) == len(snames))
+    texts = [S.to_string(getattr(S, n)) for n in snames]
+    for i in range(len(snames)):
+        ensures("every-state-has-a-status-text:" + snames[i], isinstance(texts[i], str) and len(texts[i]) > 0)
+        for j in range(i + 1, len(snames)):
+            ensures("status-texts-tell-the-states-apart:" + snames[i], texts[i] != texts[j])
